@@ -51,7 +51,7 @@ def gen_axil_ops(rng, n, nbytes, addrs, full_strb=False, err_addrs=()):
         if rng.random() < 0.5:
             strb = (1 << nbytes) - 1 if (full_strb or rng.random() < 0.5) else rng.getrandbits(nbytes)
             ops.append({"kind": "w", "addr": a, "data": rng.getrandbits(8 * nbytes), "strb": strb,
-                        "aw_gap": rng.choice([0, 0, 1, 4]), "w_gap": rng.choice([0, 0, 1, 4])})
+                        "aw_gap": rng.choice([0, 0, 1, 4]), "w_gap": rng.choice([0, 0, 1, 4, 4, 9, 14])})      # (data long after its address too)
         else:
             ops.append({"kind": "r", "addr": a, "ar_gap": rng.choice([0, 0, 1, 4])})
     return ops
@@ -149,6 +149,11 @@ def generate(family, rng, tier, wb_err=False, up_pipelined=False, lite_pipelined
                 # the write data before the address
                 scn["slave"]["depth"] = 1
                 scn["slave"]["aw"] = ""
+                if rng.random() < 0.4:
+                    # a slave that takes the next read address in the very cycle its read data leaves (still one request at a time);
+                    # the master takes read data at once
+                    scn["slave"]["ar_with_r"] = True
+                    scn["rready"] = ""
         else:
             scn["lat"] = [rng.choice([1, 1, 2, 5]) for _ in range(8)]
     elif family == "axil2axi":
@@ -408,7 +413,7 @@ def run1(scn):
                             continue
                         break
                 ri += 1
-        for (t, ch, what) in ma.proto[:2]:
+        for (t, ch, what) in (ma.proto + ma.early_b)[:2]:
             V("protocol_master_side", "master." + ch, "cycle %d: %s" % (t, what), t)
         stalls = sum(ma.stall.values())
         ntr = ma.b_n + ma.r_n
